@@ -48,7 +48,8 @@ fn alloc_bound(input_len: usize) -> usize { 512 * input_len + (256 << 10) }
 static A: Counting = Counting;
 
 pub trait Action {
-    fn run<T: Message + Debug + 'static>(&mut self, default: Option<fn() -> T>);
+    /// `wire_tt`: the wire type of a value of `T` (from the IDL)
+    fn run<T: Message + Debug + 'static>(&mut self, default: Option<fn() -> T>, wire_tt: &'static str);
 }
 
 fn decode_with<T: Message>(proto: Proto, input: &[u8]) -> (Result<T, ThriftException>, usize) {
@@ -98,11 +99,11 @@ fn canon(v: &Val) -> Val {
 }
 
 /// the value as its binary re-encoding reads back, canonicalised (hash containers have no order)
-fn canon_of<T: Message>(v: &T) -> String {
+fn canon_of<T: Message>(v: &T, ws: &str) -> String {
     match encode_with(Proto::Bin, v) {
         Err(_) => "err-encode".into(),
         Ok((b, _)) => {
-            let r = read_script(Proto::Bin, &b, &[ReadStep::Read(TT::Struct)]);
+            let r = read_script(Proto::Bin, &b, &[ReadStep::Read(TT::of_name(ws).unwrap_or(TT::Struct))]);
             if r.err.is_none() && r.rem == 0 { Val::of_sexp(&Sexp::parse_line(&r.items[0]).unwrap()[0]).map(|v| canon(&v).sexp()).unwrap_or_default() } else { format!("raw:{}", hex(&b)) }
         }
     }
@@ -110,7 +111,7 @@ fn canon_of<T: Message>(v: &T) -> String {
 
 struct Recode<'a> { proto: Proto, input: &'a [u8], o: &'a mut Oracle, out: String, keep: bool, rt: bool }
 impl<'a> Action for Recode<'a> {
-    fn run<T: Message + Debug + 'static>(&mut self, _d: Option<fn() -> T>) {
+    fn run<T: Message + Debug + 'static>(&mut self, _d: Option<fn() -> T>, ws: &'static str) {
         let ((r, rem), peak, biggest) = measured(|| decode_with::<T>(self.proto, self.input));
         if peak > alloc_bound(self.input.len()) { self.o.fail("C09", format!("emitted decoder under {}: peak allocation {} bytes (largest request {}) on {} input bytes", self.proto.name(), peak, biggest, self.input.len())); }
         self.out = match r {
@@ -128,17 +129,17 @@ impl<'a> Action for Recode<'a> {
                 match encode_with(Proto::Bin, &v) {
                     Err(_) => "err-encode".into(),
                     Ok((b, _)) => {
-                        let r = read_script(Proto::Bin, &b, &[ReadStep::Read(TT::Struct)]);
-                        // a newtype / enum is not a struct on the wire: fall back to raw bytes
+                        // read back by the wire type the IDL gives the declared type (a newtype / enum is not a struct on the wire)
+                        let r = read_script(Proto::Bin, &b, &[ReadStep::Read(TT::of_name(ws).unwrap_or(TT::Struct))]);
                         let shown = if r.err.is_none() && r.rem == 0 { Val::of_sexp(&Sexp::parse_line(&r.items[0]).unwrap()[0]).map(|v| canon(&v).sexp()).unwrap_or_default() } else { format!("raw:{}", hex(&b)) };
                         // the same value must round trip through the other protocols (C02).  The reference is the value's own
                         // binary round trip, not the value: an absent optional field with an IDL default legitimately comes back filled.
                         if !self.rt { self.out = format!("ok {} rem={}", shown, rem); return; }
-                        let reference = match decode_with::<T>(Proto::Bin, &b) { (Ok(vb), 0) => canon_of(&vb), _ => { self.o.fail("C02", "binary round trip of a decoded value failed or left bytes".into()); shown.clone() } };
+                        let reference = match decode_with::<T>(Proto::Bin, &b) { (Ok(vb), 0) => canon_of(&vb, ws), _ => { self.o.fail("C02", "binary round trip of a decoded value failed or left bytes".into()); shown.clone() } };
                         for &p in all.iter().filter(|p| **p != Proto::Bin) {
                             if let Ok((b2, _)) = encode_with(p, &v) {
                                 let (r2, rem2) = decode_with::<T>(p, &b2);
-                                match r2 { Ok(v2) => { if rem2 != 0 || canon_of(&v2) != reference { self.o.fail("C02", format!("round trip under {} changed the value or left {} bytes", p.name(), rem2)); } }
+                                match r2 { Ok(v2) => { if rem2 != 0 || canon_of(&v2, ws) != reference { self.o.fail("C02", format!("round trip under {} changed the value or left {} bytes", p.name(), rem2)); } }
                                            Err(e) => self.o.fail("C02", format!("round trip under {} failed: {}", p.name(), e)) }
                             }
                         }
@@ -152,12 +153,12 @@ impl<'a> Action for Recode<'a> {
 
 struct DefaultOf { out: String }
 impl Action for DefaultOf {
-    fn run<T: Message + Debug + 'static>(&mut self, d: Option<fn() -> T>) {
+    fn run<T: Message + Debug + 'static>(&mut self, d: Option<fn() -> T>, ws: &'static str) {
         self.out = match d {
             None => "no-default".into(),
             Some(f) => match encode_with(Proto::Bin, &f()) {
                 Err(_) => "err-encode".into(),
-                Ok((b, _)) => { let r = read_script(Proto::Bin, &b, &[ReadStep::Read(TT::Struct)]); if r.err.is_none() && r.rem == 0 { format!("ok {}", Val::of_sexp(&Sexp::parse_line(&r.items[0]).unwrap()[0]).map(|v| canon(&v).sexp()).unwrap_or_default()) } else { format!("ok raw:{}", hex(&b)) } }
+                Ok((b, _)) => { let r = read_script(Proto::Bin, &b, &[ReadStep::Read(TT::of_name(ws).unwrap_or(TT::Struct))]); if r.err.is_none() && r.rem == 0 { format!("ok {}", Val::of_sexp(&Sexp::parse_line(&r.items[0]).unwrap()[0]).map(|v| canon(&v).sexp()).unwrap_or_default()) } else { format!("ok raw:{}", hex(&b)) } }
             },
         };
     }
@@ -165,7 +166,7 @@ impl Action for DefaultOf {
 
 struct Leak<'a> { proto: Proto, input: &'a [u8], out: String, leaks: Vec<usize>, accepted_prefix: Option<usize> }
 impl<'a> Action for Leak<'a> {
-    fn run<T: Message + Debug + 'static>(&mut self, _d: Option<fn() -> T>) {
+    fn run<T: Message + Debug + 'static>(&mut self, _d: Option<fn() -> T>, ws: &'static str) {
         // warm up once so that lazily initialised statics do not count
         { let _ = decode_with::<T>(self.proto, self.input); }
         for cut in 0..self.input.len() {
@@ -203,7 +204,7 @@ fn block_on<F: std::future::Future>(f: F) -> F::Output {
 }
 struct AsyncDec<'a> { proto: Proto, input: &'a [u8], chunks: Vec<usize>, o: &'a mut Oracle, out: String }
 impl<'a> Action for AsyncDec<'a> {
-    fn run<T: Message + Debug + 'static>(&mut self, _d: Option<fn() -> T>) {
+    fn run<T: Message + Debug + 'static>(&mut self, _d: Option<fn() -> T>, ws: &'static str) {
         let mut rd = Chunked { data: self.input.to_vec(), pos: 0, chunks: self.chunks.clone(), ci: 0, pulled: 0 };
         let proto = self.proto;
         let (r, peak, biggest): (Result<T, ThriftException>, usize, usize) = measured(|| match proto {
@@ -215,7 +216,7 @@ impl<'a> Action for AsyncDec<'a> {
         let (sr, srem) = decode_with::<T>(self.proto, self.input);
         // C12: same outcome as the in-memory decoder, never reads past the message
         match (&r, &sr) {
-            (Ok(a), Ok(s)) => { if canon_of(a) != canon_of(s) { self.o.fail("C12", "async value differs from in-memory value".into()); }
+            (Ok(a), Ok(s)) => { if canon_of(a, ws) != canon_of(s, ws) { self.o.fail("C12", "async value differs from in-memory value".into()); }
                                 if rd.pulled != self.input.len() - srem { self.o.fail("C12", format!("async pulled {} bytes, in-memory consumed {}", rd.pulled, self.input.len() - srem)); } }
             (Ok(_), Err(e)) => self.o.fail("C12", format!("async ok where in-memory decoder fails: {}", e)),
             (Err(e), Ok(_)) => self.o.fail("C12", format!("async fails where in-memory decoder succeeds: {}", e)),
@@ -227,7 +228,7 @@ impl<'a> Action for AsyncDec<'a> {
             Err(e) => { let c = err_class(&e); if c == "depth" { "err".to_string() } else { c.to_string() } }
             Ok(v) => match encode_with(Proto::Bin, &v) {
                 Err(_) => "err-encode".into(),
-                Ok((b, _)) => { let r = read_script(Proto::Bin, &b, &[ReadStep::Read(TT::Struct)]); let shown = if r.err.is_none() && r.rem == 0 { Val::of_sexp(&Sexp::parse_line(&r.items[0]).unwrap()[0]).map(|v| canon(&v).sexp()).unwrap_or_default() } else { format!("raw:{}", hex(&b)) }; format!("ok {} pulled={}", shown, rd.pulled) }
+                Ok((b, _)) => { let r = read_script(Proto::Bin, &b, &[ReadStep::Read(TT::of_name(ws).unwrap_or(TT::Struct))]); let shown = if r.err.is_none() && r.rem == 0 { Val::of_sexp(&Sexp::parse_line(&r.items[0]).unwrap()[0]).map(|v| canon(&v).sexp()).unwrap_or_default() } else { format!("raw:{}", hex(&b)) }; format!("ok {} pulled={}", shown, rd.pulled) }
             },
         };
     }
